@@ -115,6 +115,19 @@ func routeGen(kind string, sequential bool) func(r *rand.Rand, tier string) []sp
 					}
 				}
 			}
+			if kind == "grpcmux" && (i%8 == 1 || i%8 == 5) && len(p.Items) > 6 {
+				// one establishment whose dialler keeps retrying (WaitForReady) and whose accept is issued in
+				// the pause between its first, timed-out knock and gRPC's reconnect, by an acceptor that only
+				// starts serving after that reconnect has knocked again; what follows it must be unaffected
+				dir := []string{"plugin", "host"}[(i/4)%2]
+				for j := range p.Items {
+					if j >= 3 && !p.Items[j].Redial && p.Items[j].Dir == dir {
+						p.Items[j].WaitReady, p.Items[j].AcceptFirst, p.Items[j].GapMs, p.Items[j].SlowMs = true, false, 5300+r.Intn(300), 2500
+						p.Items = p.Items[:min(len(p.Items), j+6)]
+						break
+					}
+				}
+			}
 			if kind == "grpcmux" && i%4 == 3 {
 				// a short sequence whose redials land on the instant the broker expires
 				// the bookkeeping of the previous dial to the same listener (5 s later)
@@ -280,6 +293,12 @@ func routeJudge(prop string) func(c spec.Case, evs []spec.Event, d *Death) CaseR
 				continue
 			}
 			res.Counters["pairs"]++
+			if it.WaitReady {
+				res.Counters["late_accepts_with_retrying_dialler"]++
+				if dd.Err == "" {
+					res.Counters["late_accepts_served"]++
+				}
+			}
 			// "issued within the pending window": judged on the recorded call
 			// instants, with a margin, so that a loaded machine stretching a 4 s
 			// gap towards 5 s cannot manufacture an alarm
